@@ -26,7 +26,9 @@ container growth) is not enumerated; `std::function` emptiness (`bad_function_ca
 primitive (both call sites test the object first); mutex / condition-variable `system_error`,
 `std::random_device` failure and iostream failures (no `exceptions()` mask is set anywhere) are
 environment faults, not remote input; virtual dispatch does not occur on these paths; overloads
-are merged by qualified name; a lambda passed as an argument is taken to run where it is written.
+are merged by qualified name; a lambda passed as an argument is taken to run where it is written;
+`std::string::substr` is not a primitive: all 14 uses in the analysed files are `substr(0, n)` or
+`substr(p)` with `p` at most the size (after a successful find / prefix test / loop bound), read by hand.
 """
 from __future__ import annotations
 
@@ -38,7 +40,7 @@ import re
 import subprocess
 from pathlib import Path
 
-VERSION = "7"
+VERSION = "9"
 
 TUS = [
     "src/core/Node.cpp", "src/network/SessionManager.cpp", "src/daemon/ControlServer.cpp",
@@ -63,9 +65,10 @@ ROOTS = [
 BINDINGS = {
     ("SessionManager::receive_loop", "handler_copy"): ["ephemeralnet::Node::initialize_transport_handler::lambda#0"],
     ("SessionManager::handle_pending_handshake", "handler_copy"): ["ephemeralnet::Node::initialize_transport_handler::lambda#1"],
+    ("RelayClient::build_handshake", "handshake_builder_"): ["ephemeralnet::Node::Node::lambda#0"],
 }
 # known to be inert in the daemon: unset application hook, test hooks, the CLI's shutdown flag setter
-OPAQUE_OK = {"external_handler_", "drop_receive", "stop_callback_", "connect_override", "before_connect",
+OPAQUE_OK = {"external_handler_", "drop_receive", "stop_callback_", "connect_override", "before_connect", "before_send",
              "stun_override", "request_override"}
 
 # leaf callees: summarised to their exception classes and used as primitives at their call sites
@@ -109,13 +112,24 @@ def _norm_handler(t: str | None) -> str:
     return "unrelated"   # a user type: catches none of the classes above
 
 
-def _dump(repo: Path, tu: str) -> list:
+def _dump(repo: Path, tu: str, raw_cache: Path | None = None) -> list:
     cmd = ["clang++-14", "-std=c++20", f"-I{repo}/include", f"-I{repo}/src", f"-I{repo}", "-Xclang", "-ast-dump=json",
            "-Xclang", "-ast-dump-filter=ephemeralnet", "-fsyntax-only", "-w", str(repo / tu)]
-    r = subprocess.run(cmd, capture_output=True, text=True)
-    txt = r.stdout
-    if not txt.strip():
-        raise RuntimeError(f"clang produced no AST for {tu}: {r.stderr[-400:]}")
+    txt = None
+    if raw_cache is not None and raw_cache.exists():
+        try:
+            txt = gzip.decompress(raw_cache.read_bytes()).decode()
+        except Exception:
+            txt = None
+    if txt is None:
+        r = subprocess.run(cmd, capture_output=True, text=True)
+        txt = r.stdout
+        if not txt.strip():
+            raise RuntimeError(f"clang produced no AST for {tu}: {r.stderr[-400:]}")
+        if raw_cache is not None:
+            tmp = raw_cache.with_suffix(f".{os.getpid()}.tmp")
+            tmp.write_bytes(gzip.compress(txt.encode(), 3))
+            os.replace(tmp, raw_cache)
     dec = json.JSONDecoder()
     i, objs = 0, []
     n = len(txt)
@@ -126,7 +140,49 @@ def _dump(repo: Path, tu: str) -> list:
             break
         o, i = dec.raw_decode(txt, i)
         objs.append(o)
+    _fill_lines(objs)
     return objs
+
+
+def _fill_lines(objs: list) -> None:
+    """clang prints `line`/`file` of a location only when it differs from the previously printed
+    one; replay the document order and store the absolute begin line / file as `_l` / `_f`."""
+    state = {"line": 0, "file": ""}
+
+    def loc(d):
+        if not isinstance(d, dict):
+            return
+        if "spellingLoc" in d or "expansionLoc" in d:
+            for k, v in d.items():
+                if k in ("spellingLoc", "expansionLoc"):
+                    loc(v)
+            return
+        if "file" in d:
+            state["file"] = d["file"]
+        if "line" in d:
+            state["line"] = d["line"]
+
+    stack = [objs]
+    def walk(o):
+        if isinstance(o, list):
+            for c in o:
+                walk(c)
+            return
+        if not isinstance(o, dict):
+            return
+        for k, v in list(o.items()):
+            if k == "loc":
+                loc(v)
+            elif k == "range":
+                loc(v.get("begin"))
+                o["_l"] = state["line"]
+                o["_f"] = state["file"]
+                loc(v.get("end"))
+            elif k == "inner":
+                walk(v)
+    import sys
+    sys.setrecursionlimit(max(sys.getrecursionlimit(), 20000))
+    walk(objs)
 
 
 FUNC_KINDS = {"FunctionDecl", "CXXMethodDecl", "CXXConstructorDecl", "CXXDestructorDecl", "CXXConversionDecl"}
@@ -161,6 +217,10 @@ class TU:
         k = o.get("kind")
         if k in SCOPE_KINDS:
             q = ctx + [self._scope_name(o)]
+            pid = o.get("parentDeclContextId")
+            if pid and self.names.get(pid):
+                q = [self.names[pid], self._scope_name(o)]
+            o["_q"] = q
             if "id" in o:
                 self.names[o["id"]] = "::".join(q)
                 self.kinds[o["id"]] = k
@@ -192,7 +252,7 @@ class TU:
             return
         k = o.get("kind")
         if k in SCOPE_KINDS:
-            q = ctx + [self._scope_name(o)]
+            q = o.get("_q") or (ctx + [self._scope_name(o)])
             for c in o.get("inner", []):
                 self._collect(c, q)
             return
@@ -207,7 +267,7 @@ class TU:
                 ty = o.get("type", {}).get("qualType", "")
                 noexc = bool(re.search(r"\bnoexcept\b(?!\s*\(false\))", ty)) or k == "CXXDestructorDecl"
                 fn = self.fns.setdefault(q, {"steps": [], "noexcept": noexc, "file": self.main_file,
-                                             "line": o.get("loc", {}).get("line", 0), "lambdas": 0})
+                                             "line": o.get("_l", 0), "lambdas": 0})
                 w = _Walker(self, q, fn)
                 for c in inits:
                     w.stmt(c, [])
@@ -229,7 +289,7 @@ class TU:
                 return
             k = o.get("kind")
             if k in SCOPE_KINDS:
-                q = ctx + [self._scope_name(o)]
+                q = o.get("_q") or (ctx + [self._scope_name(o)])
                 for c in o.get("inner", []):
                     visit(c, q)
                 return
@@ -252,8 +312,7 @@ class _Walker:
 
     @staticmethod
     def _line(o):
-        r = o.get("range", {}).get("begin", {})
-        return r.get("line") or r.get("expansionLoc", {}).get("line") or 0
+        return o.get("_l", 0)
 
     def _unwrap(self, o):
         while isinstance(o, dict) and o.get("kind") in WRAPPERS and o.get("inner"):
@@ -418,8 +477,6 @@ class _Walker:
             b = bty
             if name == "at" and re.search(r"\b(vector|array|map|unordered_map|basic_string|string|deque)\b", b):
                 self.emit(guards, k="ext", callee="at", exc=["out_of_range"], line=line)
-            elif name == "substr" and re.search(r"\b(basic_string|string|string_view|basic_string_view)\b", b):
-                self.emit(guards, k="ext", callee="substr", exc=["out_of_range"], line=line)
             elif name == "value" and "optional" in b:
                 self.emit(guards, k="ext", callee="optional::value", exc=["bad_optional_access"], line=line)
 
@@ -435,11 +492,15 @@ class _Walker:
                 a = self._unwrap(args[0])
                 if isinstance(a, dict) and a.get("kind") == "UnaryOperator" and a.get("inner"):
                     a = a["inner"][0]
+                rid = None
                 if isinstance(a, dict) and a.get("kind") == "DeclRefExpr":
                     rid = a.get("referencedDecl", {}).get("id")
                     target = self.tu.names.get(rid) or a.get("referencedDecl", {}).get("name", "?")
             if args:     # default-constructed std::thread objects start nothing
-                self.emit(guards, k="thread", target=target, line=line)
+                if rid and rid in self.tu.names and not self.tu.names[rid]:
+                    self.emit(guards, k="thread", target=target, target_id=rid, line=line)
+                else:
+                    self.emit(guards, k="thread", target=target, line=line)
             return
         if re.search(r"filesystem::(recursive_)?directory_iterator$", ty):
             cty = o.get("ctorType", {}).get("qualType", "")
@@ -465,8 +526,8 @@ def _record_names(self):
 TU.record_names = _record_names
 
 
-def summarise(repo: Path, tu: str) -> dict:
-    objs = _dump(repo, tu)
+def summarise(repo: Path, tu: str, raw_cache: Path | None = None) -> dict:
+    objs = _dump(repo, tu, raw_cache)
     t = TU(objs, tu)
     t.fixup_names()
     out = {}
@@ -477,8 +538,10 @@ def summarise(repo: Path, tu: str) -> dict:
             if "target_id" in s:
                 nm = t.names.get(s.pop("target_id"))
                 if not nm:
-                    continue
-                s["target"] = nm
+                    if s["k"] != "thread":
+                        continue
+                else:
+                    s["target"] = nm
             steps.append(s)
         out[q] = {"steps": steps, "noexcept": fn["noexcept"], "file": fn["file"], "line": fn["line"],
                   "lambda": fn.get("lambda", False)}
@@ -514,8 +577,9 @@ def load_summaries(repo: Path, cache: Path, jobs: int = 4) -> tuple[dict, list[s
                 return tu, json.loads(gzip.decompress(f.read_bytes())), None
             except Exception:
                 pass
+        rawkey = hashlib.sha256((hh + tu).encode() + p.read_bytes()).hexdigest()[:32]
         try:
-            s = summarise(repo, tu)
+            s = summarise(repo, tu, cache / f"raw-{rawkey}.json.gz")
         except Exception as ex:
             return tu, None, f"{tu}: {ex}"
         tmp = f.with_suffix(f".{os.getpid()}.tmp")
@@ -644,8 +708,7 @@ def build_tree(summaries: dict) -> dict:
     for o in sorted(opaque):
         notes.append(f"unbound std::function call {o} (treated as not throwing)")
     # noexcept functions on the way are boundaries of their own
-    extra_roots = [(f"noexcept:{q.split('ephemeralnet::')[-1]}", q) for q in sorted(reach)
-                   if fns[q]["noexcept"] and not fns[q].get("lambda")]
+    noexcept_fns = [q for q in sorted(reach) if fns[q]["noexcept"] and not fns[q].get("lambda")]
     # keep functions that can reach a primitive at all (ignoring every catch)
     def raw_steps(q):
         return fns[q]["steps"]
@@ -670,6 +733,7 @@ def build_tree(summaries: dict) -> dict:
                     changed = True
                     break
     keep = [q for q in reach if can[q]]
+    extra_roots = [(f"noexcept:{q.split('ephemeralnet::')[-1]}", q) for q in noexcept_fns if can[q]]
     root_qs = [q for _, q in roots] + [q for _, q in extra_roots]
     for q in root_qs:
         if q not in keep and q in fns:
